@@ -16,6 +16,7 @@ import jax.numpy as jnp
 import numpy as np
 
 from harness import exact, markov
+from checks import l1common
 from harness.report import Report
 from probdiffeq import probdiffeq as pdq
 from probdiffeq._probdiffeq import estimators_and_losses as eal
@@ -66,6 +67,8 @@ def run(tier: str, seed: int) -> int:
             loss = pdq.loss_lml_timeseries(average_pdfs=inst["average"], tcoeff_index=inst["idx"])
             cmp("loss_lml_timeseries", loss(u, posterior=mseq, std=std), want)
             # terminal-value loss of the same sequence uses the terminal marginal only: checked on its own K = 0 instances
+    # wiring: the posterior returned by the real solvers is scored term by term as the chain rule demands (TLC on the tracing SSM)
+    l1common.run_consumers(rep, tier, seed, "lml", "lml-wiring")
     rep.assumptions = [
         "the dense embedding of isotropic / block-diagonal pieces is done by the harness (coefficient-major order, law checked under C08)",
         "observed joint covariance at most 4 x 4 (exact inverse by cofactors); entries small integers, scalings in {1/2, 1, 2}",
